@@ -14,6 +14,7 @@ import (
 	"runtime"
 	"runtime/debug"
 	"sort"
+	"strconv"
 	"strings"
 	"time"
 )
@@ -279,7 +280,15 @@ func Remarshal(in interface{}, out interface{}) error {
 // exhaust memory. Returns false if f panicked.
 func (c *Ctx) Guard(prefix string, kase interface{}, seconds int, f func()) bool {
 	done := make(chan string, 1)
+	t0 := time.Now()
 	go func() { done <- Safe(f) }()
+	if slowMs > 0 {
+		defer func() {
+			if d := time.Since(t0); d > time.Duration(slowMs)*time.Millisecond {
+				fmt.Fprintf(os.Stderr, "hx slow %s %.1fs\n", prefix, d.Seconds())
+			}
+		}()
+	}
 	deadline := time.After(time.Duration(seconds) * time.Second)
 	tick := time.NewTicker(100 * time.Millisecond)
 	defer tick.Stop()
@@ -294,6 +303,12 @@ func (c *Ctx) Guard(prefix string, kase interface{}, seconds int, f func()) bool
 		case <-tick.C:
 			var ms runtime.MemStats
 			runtime.ReadMemStats(&ms)
+			if ms.HeapInuse > MemLimit {
+				// garbage of earlier cases that has not been collected yet counts in HeapInuse:
+				// collect first, so that the verdict does not depend on GC timing
+				runtime.GC()
+				runtime.ReadMemStats(&ms)
+			}
 			if ms.HeapInuse > MemLimit {
 				c.Check(prefix+"/memory", false, kase, func() string {
 					return fmt.Sprintf("heap grew to %d MiB during one implementation call", ms.HeapInuse>>20)
@@ -312,6 +327,9 @@ func (c *Ctx) Guard(prefix string, kase interface{}, seconds int, f func()) bool
 		}
 	}
 }
+
+// slowMs (HX_SLOW_MS): debugging aid, report guarded calls slower than this on stderr.
+var slowMs, _ = strconv.Atoi(os.Getenv("HX_SLOW_MS"))
 
 // MemLimit is the heap size at which Guard aborts the run (excessive allocation).
 var MemLimit uint64 = 3 << 30
